@@ -127,19 +127,19 @@ Qed.
 
 (* ---- the page loop ---- *)
 (* the buffer agrees with the view on every page already handled, and still holds the file's bytes elsewhere *)
-Lemma override_pages_spec fs pg first_page st view buf0 :
+Lemma override_pages_spec fs pg (src : N -> bool) st view buf0 :
   0 < pg ->
   forall idxs buf npages,
     read_mem fs st (npages * pg) = Some view ->
     length buf0 = N.to_nat (npages * pg) -> length buf = N.to_nat (npages * pg) ->
     Forall (fun i => i < npages) idxs -> NoDup idxs ->
     (* coherence: a page left to the file holds the file's bytes *)
-    (forall i k, In i idxs -> page_from_mem (assoc_bits (pm_bits fs) (first_page + i)) = false ->
+    (forall i k, In i idxs -> src i = false ->
                  (k < N.to_nat pg)%nat -> nth (N.to_nat (i * pg) + k) view 0 = nth (N.to_nat (i * pg) + k) buf0 0) ->
     (* pages still to handle hold the file's bytes *)
     (forall i k, In i idxs -> (k < N.to_nat pg)%nat ->
                  nth (N.to_nat (i * pg) + k) buf 0 = nth (N.to_nat (i * pg) + k) buf0 0) ->
-    exists out, override_pages fs pg first_page st idxs buf = Some out
+    exists out, override_pages fs pg src st idxs buf = Some out
                 /\ length out = length buf
                 /\ (forall i k, In i idxs -> (k < N.to_nat pg)%nat ->
                                 nth (N.to_nat (i * pg) + k) out 0 = nth (N.to_nat (i * pg) + k) view 0)
@@ -151,7 +151,7 @@ Proof.
     split; [intros i k []|intros j _; reflexivity].
   - cbn [override_pages]. inversion Hin as [|? ? Hi Hrest]; subst. inversion Hnd as [|? ? Hni Hnd']; subst.
     destruct (read_mem_spec fs st (npages * pg) view Hview) as [Hlv _].
-    destruct (page_from_mem (assoc_bits (pm_bits fs) (first_page + i))) eqn:Epm.
+    destruct (src i) eqn:Epm.
     + (* re-read from memory *)
       rewrite (read_mem_slice fs st (npages * pg) view (i * pg) pg Hview) by nia.
       set (bytes := firstn (N.to_nat pg) (skipn (N.to_nat (i * pg)) view)).
@@ -222,7 +222,8 @@ Theorem fetch_is_view fs prm c view :
   read_mem fs st ln = Some view ->                     (* what the process sees *)
   (* kernel coherence: a page that the pagemap does not send to /proc/pid/mem holds the file's bytes,
      zero past the end of the file *)
-  (forall i k, i < npages -> page_from_mem (assoc_bits (pm_bits fs) (st / page prm + i)) = false ->
+  (forall i k, i < npages ->
+               page_reread fs (st / page prm) (partial_page (page prm) (r_fsize (c_reg c) - off) ln) i = false ->
                (k < N.to_nat (page prm))%nat ->
                nth (N.to_nat (i * page prm) + k) view 0 = nth (N.to_nat (i * page prm) + k) buf0 0) ->
   model_fetch fs prm c = OFetched st view.
@@ -239,7 +240,9 @@ Proof.
   { rewrite Hln. subst buf0. rewrite app_length, firstn_length, skipn_length, zeros_length.
     unfold r_fsize, nlen in *. lia. }
   destruct (read_mem_spec fs st ln view Hview) as [Hlv _].
-  destruct (override_pages_spec fs (page prm) (st / page prm) st view buf0 Hpg (nseq 0 npages) buf0 npages
+  destruct (override_pages_spec fs (page prm)
+              (page_reread fs (st / page prm) (partial_page (page prm) (r_fsize (c_reg c) - off) ln))
+              st view buf0 Hpg (nseq 0 npages) buf0 npages
               ltac:(rewrite Hln; exact Hview) Hl0 Hl0
               ltac:(apply Forall_forall; intros i Hi; apply in_nseq0; exact Hi) (nodup_nseq0 npages))
     as [out [E [Hlo [Hdone _]]]].
